@@ -107,6 +107,20 @@ theorem Rep.newSlot {s : State} {A : AState} (hr : Rep s A) {i : Nat} (he : A.is
     rw [heap_out_empty hr he]; exact hh
   · rw [hs2, hA2]; exact hr.opts
 
+theorem AState.setChain_slots {A : AState} {i : Nat} {sl : ASlot} (hsl : A.slot? i = some sl) (c : Chain) :
+    (A.setChain i c).slots = A.slots.set i (some { sl with chain := c }) := by
+  simp [AState.setChain, hsl, AState.setSlot]
+theorem AState.setChain_next {A : AState} {i : Nat} (c : Chain) : (A.setChain i c).next = A.next := by
+  unfold AState.setChain; split <;> rfl
+theorem AState.setChain_opts {A : AState} {i : Nat} (c : Chain) : (A.setChain i c).opts = A.opts := by
+  unfold AState.setChain; split <;> rfl
+theorem AState.setChain_slot?_ne {A : AState} {i j : Nat} (hne : j ≠ i) (c : Chain) :
+    (A.setChain i c).slot? j = A.slot? j := by
+  unfold AState.setChain
+  split
+  · simp [AState.slot?, AState.setSlot, List.getElem?_set, Ne.symm hne]
+  · rfl
+
 theorem splice_decomp (full : Chain) (d : Nat) (x : Nat × View) (post : Chain) (hd' : full.drop d = x :: post)
     (top : Nat × View) (tail : Chain) : AState.splice full d top tail = full.take d ++ top :: tail := rfl
 
